@@ -46,6 +46,11 @@ class Check(PropCheck):
             ops += rng.sample(['partitions', 'dm', 'n_leaves', 'sackin', 'dmr', 'height'], 3)
             for s in range(rng.randint(1, 6)):
                 r = rng.random(); big = rng.randint(0, 10 ** 6)
+                if rng.random() < 0.12:
+                    # an operation that must be refused (removed or unknown id) and must leave nothing behind
+                    sel = rng.choice(['removed', 'removed', 'any'])
+                    ops += ['pick %s %d' % (sel, big), rng.choice(['add_child $0 %s %s -' % (vf.enc_str('ghost%d_%d' % (j, s)), vf.enc_len(0.5)), 'prune $0',
+                                                                  'merge $0 $0 - - - -'])]
                 if r < 0.3:
                     ops += ['pick nonroot %d' % big, 'prune $0']
                 elif r < 0.45:
